@@ -387,4 +387,45 @@ theorem Inv.restart_preserves_content {cfg : Cfg α β} (hc : cfg.codec.Ok) {s :
   have hp : (hydrate cfg s.dir).files.Perm m.files := (hydrate_files cfg s.dir).trans (h.files m hm).symm
   exact hp.flatMap_right _
 
+
+/-! ### Ghost lists along a whole history -/
+
+theorem run_cons (cfg : Cfg α β) (s : State α β) (op : Op α) (ops : List (Op α)) :
+    run cfg s (op :: ops) = run cfg (step cfg s op).1 ops := rfl
+
+theorem acked_from_history (cfg : Cfg α β) (ops : List (Op α)) (s : State α β) (p : Name × α)
+    (hp : p ∈ (run cfg s ops).acked) : p ∈ s.acked ∨ ∃ nm, Op.append p.2 nm ∈ ops := by
+  induction ops generalizing s with
+  | nil => exact Or.inl hp
+  | cons op ops ih =>
+    rcases ih _ hp with h | ⟨nm, h⟩
+    · rcases acked_source op h with h' | ⟨nm, rfl⟩
+      · exact Or.inl h'
+      · exact Or.inr ⟨nm, by simp⟩
+    · exact Or.inr ⟨nm, List.mem_cons_of_mem _ h⟩
+
+theorem inflight_from_history (cfg : Cfg α β) (ops : List (Op α)) (s : State α β) (p : Name × α)
+    (hp : p ∈ (run cfg s ops).inflight) : p ∈ s.inflight ∨ ∃ nm n, Op.crashAppend p.2 nm n ∈ ops := by
+  induction ops generalizing s with
+  | nil => exact Or.inl hp
+  | cons op ops ih =>
+    rcases ih _ hp with h | ⟨nm, n, h⟩
+    · rcases inflight_source op h with h' | ⟨nm, n, rfl⟩
+      · exact Or.inl h'
+      · exact Or.inr ⟨nm, n, by simp⟩
+    · exact Or.inr ⟨nm, n, List.mem_cons_of_mem _ h⟩
+
+theorem persists_run (cfg : Cfg α β) (hc : cfg.codec.Ok) (ops : List (Op α)) (s : State α β) (hs : Inv cfg s)
+    (p : Name × α) (hp : p ∈ s.acked) :
+    p ∈ (run cfg s ops).acked ∨ ∃ k, Op.purge k ∈ ops ∧ cfg.epoch p.2 < k := by
+  induction ops generalizing s with
+  | nil => exact Or.inl hp
+  | cons op ops ih =>
+    rcases hs.acked_persists hc op hp with h | ⟨k, rfl, hk⟩
+    · rcases ih _ (inv_step hc hs op) h with h' | ⟨k, hk, hlt⟩
+      · exact Or.inl h'
+      · exact Or.inr ⟨k, List.mem_cons_of_mem _ hk, hlt⟩
+    · exact Or.inr ⟨k, by simp, hk⟩
+
+
 end F3.Wal
